@@ -195,6 +195,12 @@ pub fn run(ctx: &Ctx, rep: &mut Report) {
         popts.n_users = if miri { rng.below(2) } else { *rng.pick(&[0usize, 0, 1, 2, 3]) };
         let world = match guard(|| build_world_from(&mut rng, &dopts, matrix, sys, popts, Place::Owned)) {
             Ok(Ok(w)) => w,
+            Ok(Err(e)) if e.starts_with("user dictionary rejected") => {
+                // the generator only writes references that the documented resolution rules lead to their targets
+                rep.eval();
+                rep.violation("valid_input_rejected", "DictBuilder(user)", &clip(&e, 300), "", json!({"world_index": wi}));
+                continue;
+            }
             Ok(Err(e)) if e.starts_with("load failed") || e.starts_with("plain load failed") => {
                 // the compiler accepted the inputs, so loading what it wrote must succeed
                 rep.eval();
@@ -252,6 +258,54 @@ pub fn run(ctx: &Ctx, rep: &mut Report) {
                     }
                 }
                 rep.count("entries_compared", 1);
+                // the same strings when only some fields are requested (the reader then skips over the others)
+                {
+                    use sudachi::dic::subset::InfoSubset;
+                    let wid = WordId::new(dic as u8, row as u32);
+                    for sub in [InfoSubset::SURFACE | InfoSubset::READING_FORM | InfoSubset::POS_ID, InfoSubset::READING_FORM, InfoSubset::SYNONYM_GROUP_ID | InfoSubset::NORMALIZED_FORM] {
+                        let full = world.dict.lexicon().get_word_info(wid);
+                        let part = guard(|| world.dict.lexicon().get_word_info_subset(wid, sub.normalize()));
+                        match (full, part) {
+                            (Ok(f), Ok(Ok(p))) => {
+                                rep.count("partial_reads_compared", 1);
+                                let bad = (sub.contains(InfoSubset::READING_FORM) && f.reading_form() != p.reading_form())
+                                    || (sub.contains(InfoSubset::NORMALIZED_FORM) && f.normalized_form() != p.normalized_form())
+                                    || (sub.contains(InfoSubset::SURFACE) && f.surface() != p.surface())
+                                    || (sub.contains(InfoSubset::SYNONYM_GROUP_ID) && f.synonym_group_ids() != p.synonym_group_ids());
+                                if bad {
+                                    rep.violation("field_mismatch", "get_word_info_subset", &format!("dictionary {} row {}: with only {:?} requested the strings differ from a full read", dic, row, sub), "", scenario(&format!("dictionary {} row {}", dic, row)));
+                                    world_ok = false;
+                                }
+                            }
+                            (Ok(_), Ok(Err(e))) => {
+                                rep.violation("read_error", "get_word_info_subset", &format!("dictionary {} row {} with {:?}: {:?}", dic, row, sub, e), "", scenario(""));
+                                world_ok = false;
+                            }
+                            (Ok(_), Err(p)) => {
+                                rep.violation("read_panic", &p.site, &format!("dictionary {} row {} with {:?}: {}", dic, row, sub, p.msg), "", scenario(""));
+                                world_ok = false;
+                            }
+                            _ => {}
+                        }
+                    }
+                    // the entry is reached through the index under its own number, if and only if it is declared indexed
+                    let e = &world.lexicon_of(dic).entries[row];
+                    if !e.key.is_empty() {
+                        let found = guard(|| world.dict.lexicon().lookup(e.key.as_bytes(), 0).any(|x| x.end == e.key.len() && x.word_id == wid));
+                        rep.count("index_lookups_compared", 1);
+                        match found {
+                            Ok(f) if f == e.indexed() => {}
+                            Ok(f) => {
+                                rep.violation("field_mismatch", "index", &format!("dictionary {} row {} ({:?}, left id {}): found by lookup under its own number = {}", dic, row, clip(&e.key, 20), e.left, f), "", scenario(""));
+                                world_ok = false;
+                            }
+                            Err(p) => {
+                                rep.violation("read_panic", &p.site, &p.msg, "", scenario("lookup"));
+                                world_ok = false;
+                            }
+                        }
+                    }
+                }
                 base_obs.push(obs);
             }
         }
